@@ -715,9 +715,10 @@ class C13(PropBase):
 
     def impl_cmd(self, exe, profile):
         # the per-case wall-clock watchdog of vharness (SystemTime based) is only a backstop here: the harness ends a stuck
-        # schedule itself (POLL_CAP for executors A / B -> "HUNG" panic, a 60 s tokio timeout for executor C), and on a
-        # heavily loaded machine (or across a clock step) 30 s of wall time say nothing about one case
-        return ["env", "VHARNESS_CASE_TIMEOUT=300", exe]
+        # schedule itself (POLL_CAP for executors A / B -> "HUNG" panic, a 1200 s tokio timeout for executor C), and on a
+        # heavily loaded machine (or across a clock step) 30 s of wall time say nothing about one case; a deep-thread case is
+        # 20 s of CPU in the debug build, i.e. minutes of wall time at load average 150 (the tokio timeout is 1200 s)
+        return ["env", "VHARNESS_CASE_TIMEOUT=2000", exe]
 
     # ---------------------------------------------------------------- judging
     def canon_model(self, case, ans):
